@@ -21,6 +21,8 @@ type WorldOpts struct {
 	NoLocations bool
 	Layout      int // -1 = random
 	Small       bool
+	ForceECS    bool // always declare locations and a client-subnet map
+	ManyAddrs   bool // names with many weighted addresses (C11)
 }
 
 func join(label, name string) string {
@@ -55,14 +57,14 @@ func GenWorld(rng *rand.Rand, o WorldOpts) *World {
 	}
 	zones := layouts[li]
 	// locations and maps
-	if !o.NoLocations && rng.Intn(5) != 0 {
+	if !o.NoLocations && (rng.Intn(5) != 0 || o.ForceECS) {
 		all := []string{"aa", "bb", "c\x00", "\x00\x07"}
 		w.Locs = all[:1+rng.Intn(3)]
 		if rng.Intn(6) == 0 {
 			w.Locs = all
 		}
 	}
-	genMaps(b)
+	genMaps(b, o)
 
 	locOf := func() string {
 		if len(w.Locs) == 0 || rng.Intn(3) != 0 {
@@ -280,7 +282,7 @@ func finish(w *World) {
 }
 
 // genMaps declares subnets and name->map bindings so that every location has clients.
-func genMaps(b *builder) {
+func genMaps(b *builder, o WorldOpts) {
 	w, rng := b.w, b.rng
 	if len(w.Locs) == 0 {
 		if rng.Intn(3) == 0 { // subnets without any tagged record: locations exist but change nothing
@@ -313,7 +315,7 @@ func genMaps(b *builder) {
 		}
 	}
 	// an ECS map
-	if rng.Intn(2) == 0 {
+	if rng.Intn(2) == 0 || o.ForceECS {
 		for i, l := range w.Locs {
 			addSubnet(b, "ec", l, fmt.Sprintf("198.51.%d.0/24", i+1))
 			if rng.Intn(2) == 0 {
